@@ -9,6 +9,8 @@
 (*   {"ev":"Reset"}                                                        *)
 (*   {"ev":"Update","ents":[{"name","cls","sec"}..]}   tokens = Len(ent)+i *)
 (*   {"ev":"Snapshot","g","ip","op":{kind,cls,sec},"order":[tokens]}       *)
+(*   {"ev":"NoSnapshot","g","ip","op","why"}  the server ended the         *)
+(*        connection (panic in the handler, close) before any snapshot     *)
 (*   {"ev":"Read50","g","ok"}                                              *)
 (*   {"ev":"Find","g","e"}          outcome of the search as observed      *)
 (*   {"ev":"Mark","g","e","ip"}     arguments of the real call             *)
@@ -26,7 +28,8 @@
 (*   {"ev":"CResult","g","op","name","st"}                                 *)
 (*                                                                         *)
 (* One deterministic pass:                                                 *)
-(*   viol/vkind  first line whose OBSERVED values break the property layer *)
+(*   viols       first line of each kind whose OBSERVED values break the   *)
+(*               property layer                                            *)
 (*               (Sound, Complete, SnapshotIsPermutation, NoAuthNoEffect,  *)
 (*               InvalidRefused) - the verdict                             *)
 (*   drift/dkind first line that differs from the mechanism layer (exact   *)
@@ -39,23 +42,23 @@ Trace == ndJsonDeserialize("trace.ndjson")
 TraceSlots == 1..MaxSlot
 TraceNone == {}
 
-VARIABLES l, viol, vkind, drift, dkind, ntraces,
+VARIABLES l, viols, drift, dkind, ntraces,
           cmay,     \* conc: generations that may be the current list now
           cpend,    \* conc: Update calls that have not returned
           cbefore,  \* conc: generation -> generations certainly installed before its Update was called
           ccand,    \* conc: slot -> generations that may have been current since its SnapshotForClientIP was called
           cat       \* conc: slot -> generation its last snapshot was taken from
-tvars == <<l, viol, vkind, drift, dkind, ntraces, cmay, cpend, cbefore, ccand, cat>>
+tvars == <<l, viols, drift, dkind, ntraces, cmay, cpend, cbefore, ccand, cat>>
 cvars == <<cmay, cpend, cbefore, ccand, cat>>
 
 Ev == Trace[l]
 IsEvent(e) == l <= Len(Trace) /\ Trace[l].ev = e /\ l' = l + 1
 
-NoteViol(k)  == /\ viol'  = IF viol = 0 /\ k # "" THEN l ELSE viol
-                /\ vkind' = IF viol = 0 /\ k # "" THEN k ELSE vkind
+\* viols: the first line of every KIND of property-layer failure, <<line, kind>>
+NoteViol(k)  == viols' = IF k # "" /\ ~(\E i \in 1..Len(viols) : viols[i][2] = k) THEN Append(viols, <<l, k>>) ELSE viols
 NoteDrift(k) == /\ drift' = IF drift = 0 /\ k # "" THEN l ELSE drift
                 /\ dkind' = IF drift = 0 /\ k # "" THEN k ELSE dkind
-NoViol  == UNCHANGED <<viol, vkind>>
+NoViol  == UNCHANGED viols
 NoDrift == UNCHANGED <<drift, dkind>>
 
 Gens == 0..MaxGen
@@ -65,7 +68,7 @@ EmptyC == /\ cmay' = {0} /\ cpend' = {} /\ cbefore' = [k \in Gens |-> {}]
 TraceInit == /\ list = <<>> /\ gen = 0 /\ ent = <<>> /\ lastIP = <<>>
              /\ lk = [g \in Slots |-> IdleLk]
              /\ nupd = 0 /\ nlk = 0 /\ tr = <<>>
-             /\ l = 1 /\ viol = 0 /\ vkind = "" /\ drift = 0 /\ dkind = "" /\ ntraces = 0
+             /\ l = 1 /\ viols = <<>> /\ drift = 0 /\ dkind = "" /\ ntraces = 0
              /\ cmay = {0} /\ cpend = {} /\ cbefore = [k \in Gens |-> {}]
              /\ ccand = [g \in Slots |-> {}] /\ cat = [g \in Slots |-> 0]
 
@@ -95,6 +98,15 @@ TrSnapshot ==
        /\ NoteDrift(IF lk[g].ph \notin {"idle", "done"} THEN "snapshot-phase"
                     ELSE IF Ev.order # model THEN "snapshot-order" ELSE "")
   /\ UNCHANGED <<list, gen, ent, lastIP, nupd, nlk, tr, ntraces>> /\ UNCHANGED cvars
+
+\* the server ended the connection (handler panicked inside SnapshotForClientIP / closed) before the client sent a byte:
+\* there is no snapshot; what the client would have sent is known from the script, and the Result that follows is judged
+\* against the list current now (a client holding a configured key must be authenticated, not dropped)
+TrNoSnapshot ==
+  /\ IsEvent("NoSnapshot")
+  /\ lk' = [lk EXCEPT ![Ev.g] = [IdleLk EXCEPT !.ph = "done", !.ip = Ev.ip, !.op = Ev.op, !.at = gen]]
+  /\ NoteDrift("snapshot-missing")
+  /\ UNCHANGED <<list, gen, ent, lastIP, nupd, nlk, tr, ntraces>> /\ UNCHANGED cvars /\ NoViol
 
 TrRead50 ==
   /\ IsEvent("Read50")
@@ -142,7 +154,7 @@ TrResult ==
                                                              !.wrote = (Ev.bytes > 0 \/ Ev.authm # 0)]
          model == IF lk[g].ph = "authed" THEN Finished(lk[g], "OK", lk[g].res, TRUE) ELSE lk[g] IN
        /\ lk' = [lk EXCEPT ![g] = o]
-       /\ NoteViol(Judge(o))
+       /\ NoteViol(IF Judge(o) = "valid-key-refused" /\ Ev.st = "PANIC" THEN "lookup-crashed" ELSE Judge(o))
        /\ NoteDrift(IF lk[g].ph \notin {"authed", "done"} THEN "result-phase"
                     ELSE IF model.res # o.res \/ model.st # o.st THEN "result-differs"
                     ELSE IF Ev.authm # o.res THEN "metric-id-differs" ELSE "")
@@ -196,12 +208,12 @@ TrCResult ==
        NoteViol(Judge(o))
   /\ UNCHANGED cvars /\ CUnch /\ NoDrift
 
-TraceNext == \/ TrReset \/ TrUpdate \/ TrSnapshot \/ TrRead50 \/ TrFind \/ TrMark \/ TrResult
+TraceNext == \/ TrReset \/ TrUpdate \/ TrSnapshot \/ TrNoSnapshot \/ TrRead50 \/ TrFind \/ TrMark \/ TrResult
              \/ TrCReset \/ TrUpdCall \/ TrUpdRet \/ TrSnapCall \/ TrSnapRet \/ TrCResult
 TraceSpec == TraceInit /\ [][TraceNext]_<<vars, tvars>>
 
 Report == (l = Len(Trace) + 1) =>
-            PrintT(<<"RESULT", ToJson([lines |-> l - 1, ntraces |-> ntraces, viol |-> viol, vkind |-> vkind,
+            PrintT(<<"RESULT", ToJson([lines |-> l - 1, ntraces |-> ntraces, viols |-> viols,
                                        drift |-> drift, dkind |-> dkind])>>)
 \* all lines consumed: one state per line plus the initial state
 TraceAccepted == TLCGet("stats").diameter - 1 = Len(Trace)
